@@ -895,13 +895,20 @@ impl Graph {
         //
         // This enables these inputs to be used for in-place operations or
         // returned directly as outputs.
+        //
+        // Values supplied for constant nodes are ignored, whether they are
+        // owned or views, so these are not extracted.
+        let mut owned_inputs = Vec::new();
         let mut idx = 0;
         while idx < inputs.len() {
-            if matches!(inputs[idx], (_, ValueOrView::Value(_))) {
+            if matches!(inputs[idx], (_, ValueOrView::Value(_)))
+                && matches!(self.nodes.get(&inputs[idx].0), Some(Node::Value(_)))
+            {
                 let (node_id, ValueOrView::Value(outp)) = inputs.remove(idx) else {
                     unreachable!();
                 };
                 temp_values.insert(node_id, outp);
+                owned_inputs.push(node_id);
             } else {
                 idx += 1;
             }
@@ -1211,12 +1218,17 @@ impl Graph {
             }
 
             // Save outputs for future steps.
+            //
+            // Values supplied by the caller take precedence over operator
+            // outputs. This can happen if the caller supplies a value for one
+            // output of an operator which is run to compute its other outputs.
             temp_values.extend(
                 op_node
                     .output_ids()
                     .iter()
                     .zip(outputs)
-                    .filter_map(|(output_id, output)| output_id.map(|id| (id, output))),
+                    .filter_map(|(output_id, output)| output_id.map(|id| (id, output)))
+                    .filter(|(id, _)| !owned_inputs.contains(id)),
             );
 
             // Remove temporary values that are no longer needed
